@@ -611,6 +611,18 @@ pub enum OpenErr {
     Create(String),
     /// `RedbStore::new` failed
     New(String),
+    /// opening panicked (site = stable short panic location)
+    Panic { site: String, msg: String },
+}
+
+impl OpenErr {
+    /// Key suffix for a `reopen_succeeds` violation: a panic is keyed by where it happened.
+    pub fn key(&self, base: &str) -> String {
+        match self {
+            OpenErr::Panic { site, .. } => format!("panic_at_{site}"),
+            _ => base.to_string(),
+        }
+    }
 }
 
 impl std::fmt::Display for OpenErr {
@@ -618,19 +630,30 @@ impl std::fmt::Display for OpenErr {
         match self {
             OpenErr::Create(e) => write!(f, "redb open: {e}"),
             OpenErr::New(e) => write!(f, "RedbStore::new: {e}"),
+            OpenErr::Panic { site, msg } => write!(f, "opening the database panicked at {site}: {msg}"),
         }
     }
 }
 
-async fn open_redb(_ctx: &Arc<RunCtx>, disk: &SimDisk) -> Result<(RedbStore, Arc<Database>), OpenErr> {
-    let db = Database::builder()
-        .create_with_backend(disk.clone())
-        .map_err(|e| OpenErr::Create(e.to_string()))?;
+/// Opens (or creates) the database on `disk` the way the node does. A panic inside redb or
+/// `RedbStore::new` is caught and reported as `OpenErr::Panic` (the caller decides what it means).
+pub async fn open_redb(ctx: &Arc<RunCtx>, disk: &SimDisk) -> Result<(RedbStore, Arc<Database>), OpenErr> {
+    use futures::FutureExt;
+    let panic_err = |ctx: &Arc<RunCtx>| {
+        let p = ctx.panics.lock().unwrap().iter().rev().find(|p| !crate::kernel::runner::is_harness_location(&p.location)).cloned();
+        let (loc, msg) = p.map(|p| (p.location, p.message)).unwrap_or_default();
+        OpenErr::Panic { site: crate::kernel::runner::short_location(&loc), msg }
+    };
+    let d = disk.clone();
+    let db = match std::panic::catch_unwind(std::panic::AssertUnwindSafe(move || Database::builder().create_with_backend(d))) {
+        Ok(r) => r.map_err(|e| OpenErr::Create(e.to_string()))?,
+        Err(_) => return Err(panic_err(ctx)),
+    };
     let db = Arc::new(db);
-    let s = RedbStore::new(db.clone())
-        .await
-        .map_err(|e| OpenErr::New(e.to_string()))?;
-    Ok((s, db))
+    match std::panic::AssertUnwindSafe(RedbStore::new(db.clone())).catch_unwind().await {
+        Ok(r) => Ok((r.map_err(|e| OpenErr::New(e.to_string()))?, db)),
+        Err(_) => Err(panic_err(ctx)),
+    }
 }
 
 // ------------------------------------------------------------------------------------ Model mode
@@ -934,7 +957,7 @@ async fn run_crash(ctx: &Arc<RunCtx>) {
             Err(e) => {
                 if !disk.crashed() && !disk.io_failed() {
                     ctx.oracle("C22.reopen_succeeds");
-                    ctx.violation("C22", "reopen_succeeds", "open", format!("round {round}: {e}"));
+                    ctx.violation("C22", "reopen_succeeds", &e.key("open"), format!("round {round}: {e}"));
                     ctx.end_span();
                     return;
                 }
@@ -1034,7 +1057,7 @@ async fn run_crash(ctx: &Arc<RunCtx>) {
                 } else {
                     "after_clean_stop"
                 };
-                ctx.violation("C22", "reopen_succeeds", key, format!("round {round}: {e}"));
+                ctx.violation("C22", "reopen_succeeds", &e.key(key), format!("round {round}: {e}"));
                 ctx.end_span();
                 return;
             }
@@ -1195,10 +1218,12 @@ async fn run_crash_enum(ctx: &Arc<RunCtx>) {
                 ctx.violation(
                     "C22",
                     "reopen_succeeds",
-                    if file_created { "after_crash" } else { "during_first_file_creation" },
+                    &e.key(if file_created { "after_crash" } else { "during_first_file_creation" }),
                     format!("crash at backend call {at}/{total_calls}: {e}"),
                 );
-                if file_created {
+                // a panic inside redb's open is keyed by its site; go on with the other crash
+                // points so that a listed site does not hide the rest of the enumeration
+                if file_created && !matches!(e, OpenErr::Panic { .. }) {
                     return;
                 }
                 continue;
